@@ -11,11 +11,13 @@ from vf.core import hyp
 
 
 def load_known(root: str, pid: str):
-    path = os.path.join(root, 'known_findings.json')
-    if not os.path.exists(path):
-        return [], []
-    with open(path) as fh:
-        doc = json.load(fh)
+    doc = {'findings': [], 'fixed': []}
+    for path in (os.path.join(root, 'known_findings.json'), os.path.join(root, 'known_findings.d', f'{pid}.json')):
+        if os.path.exists(path):
+            with open(path) as fh:
+                part = json.load(fh)
+            doc['findings'] += part.get('findings', [])
+            doc['fixed'] += part.get('fixed', [])
     known = [f for f in doc.get('findings', []) if f['property'] == pid]
     fixed = [f for f in doc.get('fixed', []) if f['property'] == pid]
     return known, fixed
